@@ -578,6 +578,10 @@ def rules(ctx):
     r1d_no_other_cache(ctx)
     r1_writers(ctx)
     r13_only_settable_assigned(ctx)
+    # the closures used for the invalidation are the complete transitive closures (same rule as C15.R4: Kahn's traversal propagates the
+    # ancestors to every child, or an equivalent closure with enough rounds)
+    from .c15 import r4_orientation
+    r4_orientation(ctx, rid="C01.R15")
     from ._shared import named_parameters_form
     named_parameters_form(ctx, "C01.R14", "a graph variable named by a parameter that is left out is not an ancestor of the derived variable - it is not invalidated when that variable is "
                           "assigned, and is computed from the Python default instead of the current value")
